@@ -16,6 +16,8 @@ package main
 // sleep.
 
 import (
+	"sort"
+	"crypto/sha256"
 	"context"
 	"fmt"
 	"io"
@@ -681,6 +683,86 @@ func subjectRemovedTrial(r *vh.Run, i int) {
 	}
 	if st := head("/v2/q/manifests/kept"); st != 200 {
 		r.Violation("tagged-image-lost:subject-removed", fmt.Sprintf("the tagged image next to the deleted subject answers %d after the passes", st), wit)
+	}
+}
+
+// notARepositoryTrial (C06): "removes repositories left empty when so configured" - and nothing else.  The root of a
+// directory store (think `serve --dir .`) holds directories that are no repositories (an index.json of some other
+// application, an empty directory, a blobs/ directory with a readme, a layout of another version) and a repository
+// whose index.json is cut off.  They are asked for (listings, manifest and blob probes: all refused or empty), then a
+// store-wide pass, a collection of each name and Close run with the empty-repository removal on.  None of their files
+// is garbage the policy names, and a repository whose index cannot be loaded has not been "left empty": everything is
+// still there afterwards.  A real repository that was emptied next to them is removed, as configured.
+func notARepositoryTrial(r *vh.Run, i int) {
+	root := r.TempDir("notrepo")
+	defer vh.RemoveAll(root)
+	wr := func(rel, content string) {
+		p := filepath.Join(root, rel)
+		_ = os.MkdirAll(filepath.Dir(p), 0o755)
+		_ = os.WriteFile(p, []byte(content), 0o644)
+	}
+	wr("notes/index.json", `{"title":"shopping list","items":["milk"]}`)
+	_ = os.MkdirAll(filepath.Join(root, "placeholder"), 0o755)
+	wr("data/blobs/readme.txt", "not a blob store")
+	wr("data/keep.txt", "keep me")
+	wr("team/app/index.json", `{"schemaVersion":2,"manifests":[]}`)
+	wr("team/app/oci-layout", `{"imageLayoutVersion":"9.9.9"}`)
+	wr("cut/oci-layout", `{"imageLayoutVersion":"1.0.0"}`)
+	wr("cut/index.json", `{"schemaVersion":2,"manifests":[{"mediaType":"application/vnd.oci.image.manifest.v1+json","dig`)
+	names := []string{"notes", "placeholder", "data", "team/app", "cut"}
+	snap := func() string {
+		var l []string
+		_ = filepath.Walk(root, func(p string, fi os.FileInfo, err error) error {
+			if err != nil {
+				return nil
+			}
+			rel := strings.TrimPrefix(p, root)
+			if rel == "" || strings.HasPrefix(rel, "/real") {
+				return nil
+			}
+			if fi.IsDir() {
+				l = append(l, rel+"/")
+			} else {
+				b, _ := os.ReadFile(p)
+				l = append(l, fmt.Sprintf("%s %x", rel, sha256.Sum256(b)))
+			}
+			return nil
+		})
+		sort.Strings(l)
+		return strings.Join(l, "\n")
+	}
+	before := snap()
+	grace := []time.Duration{-1, time.Hour}[i%2]
+	pol := vh.Policy{Untagged: i%4 >= 2, Dangling: true, WithSubj: true, EmptyRepo: true, Grace: grace}
+	srv := vh.New(vh.Conf(vh.Dir, root, pol))
+	wit := map[string]any{"trial": i, "grace": grace.String()}
+	// a real repository, emptied: the control
+	b := []byte(fmt.Sprintf("real content %d", i))
+	bd := vh.DigestOf("sha256", b)
+	vh.Do(srv, vh.Req{Method: "POST", URL: "/v2/real/blobs/uploads/?digest=" + bd, Body: b})
+	vh.Do(srv, vh.Req{Method: "DELETE", URL: "/v2/real/blobs/" + bd})
+	for _, n := range names {
+		vh.Do(srv, vh.Req{Method: "GET", URL: "/v2/" + n + "/tags/list"})
+		vh.Do(srv, vh.Req{Method: "HEAD", URL: "/v2/" + n + "/manifests/latest", H: map[string]string{"Accept": vh.AcceptAll}})
+		vh.Do(srv, vh.Req{Method: "HEAD", URL: "/v2/" + n + "/blobs/" + bd})
+	}
+	now := time.Now()
+	_ = srv.VerifGCPass(now, now.Add(-time.Minute))
+	for _, n := range append(names, "real") {
+		_ = srv.VerifGC(context.Background(), n)
+	}
+	_ = srv.Close()
+	after := snap()
+	r.Count("not_a_repository_trials", 1)
+	if before != after {
+		wit["before"], wit["after"] = before, after
+		r.Violation("collection-removed-what-is-no-garbage", fmt.Sprintf("directory store with the empty-repository removal on: directories in the root that are no repositories (or a repository whose index.json cannot be loaded) were asked for and a collection ran - files of theirs are gone.\nbefore:\n%s\nafter:\n%s", before, after), wit)
+		return
+	}
+	if grace < 0 {
+		if _, err := os.Stat(filepath.Join(root, "real")); err == nil {
+			r.Count("not_a_repository_control_still_there", 1)
+		}
 	}
 }
 
